@@ -502,7 +502,32 @@ func (en *Engine) readFull(st *State, f *Frame, x *ssa.Call, args []Value, pos s
 // its own symbolic array arr(i) with length len(i).
 type LazySlices struct {
 	Name string
-	Elem types.Type // element slice type
+	Elem types.Type // element type of the inner slices
+	regs map[int]*Region
+}
+
+// lazyElem: element idx of a slice of byte slices: a slice of length len(idx) over its own
+// array arr(idx); len and arr are uninterpreted functions of the index, so equal indices denote
+// equal contents. The element memory belongs to the caller (it existed before the call).
+func (en *Engine) lazyElem(st *State, ls *LazySlices, idx *Term) Value {
+	if ls.regs == nil {
+		ls.regs = map[int]*Region{}
+	}
+	ln := UF(ls.Name+".elen", SInt, idx)
+	if !st.typed[ln.id] && st.quantDepth == 0 {
+		st.typed[ln.id] = true
+		st.assume(Le(ConstI(0), ln))
+		st.assume(Le(ln, Const(pow2(wordBits-2))))
+	}
+	r, ok := ls.regs[idx.id]
+	if !ok {
+		r = en.newRegion(ls.Name+".elem", types.NewSlice(ls.Elem), "param-elem")
+		ls.regs[idx.id] = r
+	}
+	if _, ok := st.mem[r]; !ok {
+		st.mem[r] = &SymArrCell{Arr: UF(ls.Name+".earr", SArr, idx), N: ln, Elem: ls.Elem}
+	}
+	return SliceV{R: r, Off: ConstI(0), Len: ln, Cap: ln, Elem: ls.Elem}
 }
 
 func (en *Engine) makeSliceOfSlices(st *State, name string, t types.Type, u *types.Slice, facts *[]*Term) Value {
